@@ -143,6 +143,8 @@ structure Program where
   fns    : List Fn
   script : List (Nat × List Beh)
   ops    : List Op
+  /-- all functions share one code pointer (reflect.MakeFunc mode) -/
+  sameIds : Bool := true
   deriving Repr, Inhabited
 
 end Dig
